@@ -3,7 +3,7 @@
    lists of integers.  Rationals travel as numerator, denominator. *)
 From Coq Require Import List NArith ZArith QArith Qcanon Bool.
 From ACB Require Import Base.Outcome Base.QcExtra Base.Fit Base.Arith Model.Tx Model.Ledger
-     Model.Sfl Model.DeltaList Model.App Spec.AvgCost.
+     Model.Sfl Model.DeltaList Model.App Model.Gains Spec.AvgCost.
 Import ListNotations.
 Local Open Scope Z_scope.
 
@@ -144,6 +144,23 @@ Definition run_spec : P (list Z) :=
   init <~ pinit1 ;; rows <~ plist prow ;;
   pret (Z.of_nat (length rows) :: flat_map oobs (spec_rows (spec_init init) rows)).
 
+(* entry point "gains": arith selector, securities (each a list of
+   (settlement day, optional gain)) -> per-security totals / year maps and
+   the aggregate, in the given order *)
+Definition pgrow : P (Z * option Qc) :=
+  d <~ pZ ;; t <~ pbool ;; g <~ pQ ;; pret (d, if t then Some g else None).
+Definition ogains (g : gains) : list Z :=
+  oQ (g_total g) ++ Z.of_nat (length (g_years g)) :: flat_map (fun yv => fst yv :: oQ (snd yv)) (g_years g).
+Definition ores_gains (r : res gains) : list Z :=
+  match r with Ok g => 1 :: ogains g | _ => [0] end.
+Definition run_gains : P (list Z) :=
+  a <~ pZ ;; secs <~ plist (plist pgrow) ;;
+  let A := arith_of a in
+  let per := map (security_gains A gains0) secs in
+  let oks := flat_map (fun r => match r with Ok g => [g] | _ => [] end) per in
+  pret (Z.of_nat (length per) :: flat_map ores_gains per ++ ores_gains (aggregate A gains0 oks)
+        ++ Z.of_nat (length secs) :: flat_map (fun rows => Z.of_nat (length rows) :: map (fun r => year_of_day (fst r)) rows) secs).
+
 Definition dispatch (l : list Z) : list Z :=
   match l with
   | mode :: r =>
@@ -151,6 +168,7 @@ Definition dispatch (l : list Z) : list Z :=
                | 0 => run_core
                | 1 => run_arith
                | 2 => run_spec
+               | 3 => run_gains
                | _ => fun _ => None
                end in
       match p r with
